@@ -1224,6 +1224,26 @@ class Trace:
                         return add(st, ("vis_guard_ok", f[2]), ("vis_set", mk_deref(inner[3][0])))
                 return add(st, ("seen_new", mk_deref(inner[3][0]), inner[3][1]))
             return None
+        # `let level = mem::take(&mut frontier); for node in level { .. frontier.push(..) }`: the worklist consumed a level at
+        # a time by value.  Nothing de-duplicates at the point of removal, so -- as for the cursor form -- every element
+        # must have been made unique when it was queued (a successful insert into the set that also holds the seed)
+        if inner[0] == "call" and inner[2] == "core::iter::Iterator::next" and v == "1" and inner[3]:
+            it = inner[3][0][1] if inner[3][0][0] == "ref" else inner[3][0]
+            n_ = 0
+            while it[0] == "call" and it[2] == "core::iter::IntoIterator::into_iter" and len(it[3]) == 1 and n_ < 3:
+                it = it[3][0]
+                n_ += 1
+            if n_ and it[0] != "ref" and any(f[0] == "wl_seed" and (f[1] == it or sub(it, f[1])) for f in st.flags) \
+                    and not mentions(it, lambda x_: x_[0] == "call" and (x_[2] == "core::iter::Iterator::next" or x_[2].startswith("hashbrown::"))):
+                W = it
+                P = mk_field(("variant", inner, "Some", 1), "0", "")
+                fl = [("popped", W, P), ("cursorq", W, ("level", inner[1]))]
+                for f in st.flags:
+                    if f[0] == "wl_seed" and sub(W, f[1]):
+                        fl.append(("wl_initk", W, f[2], f[3]))
+                    if f[0] == "wl_seedptr" and sub(W, f[1]):
+                        fl.append(("wl_initptr", W, f[2]))
+                return add(st, *fl)
         # result of Vec::pop known to be Some: a node is about to be processed
         if inner[0] == "call" and is_pop_call(inner[2]) and v == "1":
             W = mk_deref(inner[3][0])
